@@ -24,7 +24,8 @@ GENOME = "ACGTACGGTCAATGCCGTAGCTAGCTAACG"
 def world_description(tier):
     w = WORLD[tier]
     return (f"exon layouts N={w['N']} k<={w['k']} disjoint x strands + - . ; all CDS placements; all chunk windows containing the interval; "
-            f"scale family: records of {SCALE_KS[tier]} blocks, CDS placements on a ladder of block boundaries, 6 parent kinds, both modes")
+            f"scale family: records of {SCALE_KS[tier]} blocks, CDS placements on a ladder of block boundaries, 6 parent kinds, both modes; "
+            f"descending / rotated constructor lists; intervals that are also made the child of a collection on another chunk")
 
 
 def shards(tier, seed):
